@@ -54,6 +54,14 @@ databricks_dialect.sets("unreserved_keywords").difference_update(RESERVED_KEYWOR
 databricks_dialect.sets("reserved_keywords").clear()
 databricks_dialect.sets("reserved_keywords").update(RESERVED_KEYWORDS)
 
+# Keywords which grammar elements of this dialect (including inherited
+# ones) refer to, but which are in neither keyword set.
+databricks_dialect.sets("unreserved_keywords").update(
+    [
+        "NOVALIDATE",
+    ]
+)
+
 databricks_dialect.sets("date_part_function_name").update(["TIMEDIFF"])
 
 
